@@ -340,6 +340,25 @@ def run(rep, tier, rng):
             p, e = FORCED[it] if it < len(FORCED) else gen_prog(rng.choice([1, 2, 3]) if quick else rng.choice([2, 3, 4, 5]), al)
             if p[0] == "num":
                 continue
+
+            def noise_normalised(q):
+                # normalising is discontinuous at zero: an operand that is exactly zero but rounding noise in floating
+                # point (nilpotent VTB / TVTB matrices) makes exact and float results differ legitimately
+                if not isinstance(q, tuple):
+                    return False
+                if q[0] == "normalized":
+                    try:
+                        with warnings.catch_warnings():
+                            warnings.simplefilter("ignore")
+                            nrm = float(np.linalg.norm(PointerSymbol(run_prog(q[1])._expr_tree, TVocabulary(voc)).evaluate().v))
+                        if 0.0 < nrm < 1e-9:
+                            return True
+                    except Exception:  # noqa
+                        pass
+                return any(noise_normalised(y) for y in q[1:])
+            if noise_normalised(p):
+                rep.count("normalisation-of-rounding-noise-skipped")
+                continue
             with warnings.catch_warnings():
                 warnings.simplefilter("ignore")
                 o = c.observe(lambda: PointerSymbol(run_prog(p)._expr_tree, TVocabulary(voc)).evaluate().v)
